@@ -122,7 +122,7 @@ theorem resolveCallee_contains_actual (P : Prog) (R : Res) (hp : ptrClosed P R =
       split
       · next hemp => simp [List.isEmpty_iff.1 hemp] at hmem
       · exact hmem
-    | invoke x mth o n t g he hs hm =>
+    | invoke x mth o n t g paths cells he hs hm hcells =>
       simp only [resolveCallee, staticOf]
       split
       · next hemp => simp [List.isEmpty_iff.1 hemp] at hmem
